@@ -9,10 +9,10 @@ import vlib
 
 def run(pid, tier, models, drives, trace_spec, rule, assumptions, boundary=("reset",), prefix_filter=None,
         count_keys=("scenarios", "histories", "pairs", "sequences", "vectors", "configs"), exhaustive=False, sig=None, deque=False,
-        trivial=None, sample_skip=None, crash_pkg=None):
+        trivial=None, sample_skip=None, crash_pkg=None, merge=False, stage="", mc_module=None):
     """models: [(spec, cfg, expect_violation)]; drives: [driver argv lists] (the output dir is appended by the caller)."""
     t0 = time.time()
-    work = vlib.workdir(pid)
+    work = vlib.workdir(pid + stage)
     drv = vlib.build_driver()
     outcome = vlib.Outcome(pid, tier)
     states = trans = 0
@@ -62,8 +62,8 @@ def run(pid, tier, models, drives, trace_spec, rule, assumptions, boundary=("res
         rejected=len(rejs), known_findings_hit=outcome.known, model_drift=0, mutant_configs_violated=mutants, driver=dstats,
         checker_cmd="tlc %s; tlc %s per shard" % (", ".join("%s/%s" % (m[0], m[1]) for m in models), trace_spec)),
         ["TLC and the TLA+ Json/IOUtils modules", "the driver logs calls/results of the real code faithfully (no oracle logic in Go)"] + assumptions,
-        time.time() - t0, len(outcome.violations))
-    vlib.cleanup(pid)
+        time.time() - t0, len(outcome.violations), merge=merge)
+    vlib.cleanup(pid + stage)
     return rc
 
 
